@@ -260,7 +260,7 @@ Section Semantics.
   Definition compose (c : chain) (theta : Env) : Env := fold_right (fun s acc => sden s acc) theta c.
 
   (* "f with the map c substituted is f'": exact when c has no nan; a chain containing nan only claims
-     strictly fewer parameters.  Parameter counts never grow. *)
+     strictly fewer parameters; the number of parameters never grows. *)
   Definition step_sound (f f' : sid) (c : chain) : Prop :=
     npar f' <= npar f /\
     (if has_nan c then npar f' < npar f else forall theta, den f (compose c theta) = den f' theta).
